@@ -174,7 +174,43 @@ use self::tfu::*;
         self.keeps_tour(schedule, r) && r is Ok && !has_service(&schedule.network, self.removed(schedule)) ==>
             r->Ok_0.dummy_tours@ == schedule.dummy_tours@ && r->Ok_0.dummy_ids_sorted@ == schedule.dummy_ids_sorted@, // @obl C11.remove_single_node.no_trip_no_dummy
 //@first
-        proof { axiom_sem_req_remove_single_node(self, schedule); lemma_sem_pre_remove_single_node(self, schedule); }
+        // (the vocabulary stays folded in the body: the clauses of remove_segment's contract are matched as atoms, and a call
+        // with other arguments fails at the tagged postconditions instead of exhausting the resource limit)
+        hide(Schedule::rs_ok);
+        hide(Schedule::shrunk_counter_ok);
+        hide(Schedule::tfu_pre);
+        hide(Schedule::seg_removable);
+        hide(Schedule::removed_nodes);
+        hide(Schedule::kept_nodes);
+        hide(Schedule::id_left);
+        hide(Schedule::provider_shrunk);
+        hide(Schedule::other_tours_untouched);
+        hide(Schedule::trips_handed_back);
+        hide(Schedule::formations_follow);
+        hide(Schedule::unserved_follow);
+        hide(Schedule::transitions_follow);
+        hide(Schedule::ids_ok);
+        hide(usage_exact);
+        hide(has_service);
+        hide(RemoveSingleNode::candidate_ok);
+        proof {
+            axiom_sem_req_remove_single_node(self, schedule);
+            lemma_sem_pre_remove_single_node(self, schedule);
+            // (the body is one tail expression: the step from the callee's clauses to candidate_ok is offered for every schedule)
+            assert forall|c: Schedule|
+                c.vehicles@ == schedule.vehicles@ && c.vehicle_ids_grouped_and_sorted@ == schedule.vehicle_ids_grouped_and_sorted@ && c.network == schedule.network
+                && schedule.provider_shrunk(single(self.node), self.vehicle, c.tours@)
+                && schedule.other_tours_untouched(self.vehicle, c.tours@)
+                && schedule.formations_follow(schedule.removed_nodes(single(self.node), self.vehicle), self.vehicle, c.train_formations@)
+                && c.ids_ok()
+                && schedule.unserved_follow(schedule.removed_nodes(single(self.node), self.vehicle), self.vehicle, c.unserved_passengers)
+                && c.costs == schedule.costs + c.tours@[self.vehicle].costs - schedule.tours@[self.vehicle].costs
+                && usage_exact(c.depot_usage@, &schedule.network, c.vehicles@, c.tours@)
+                && schedule.transitions_follow(self.vehicle, c.next_period_transitions@, c.maintenance_violation, c.vehicles@, c.tours@)
+                implies #[trigger] self.candidate_ok(schedule, &c) by {
+                lemma_candidate_ok(self, schedule, &c);
+            }
+        }
 //@end
 
 } // mod tr
